@@ -561,3 +561,157 @@ Proof.
   - destruct (SB i t Hi Hg R) as [B|B]; [|congruence]. destruct (G_dur _ GS) as [_ DD]. destruct t as [b j]. destruct (DD _ _ _ _ E) as (_ & repl & nt & Z' & _).
     cbn [fst] in B. congruence.
 Qed.
+
+(* ------------------------------------------------------------------ delete ... undelete leaves the blob intact *)
+Lemma fold_rdel_keep : forall ts l m k,
+  rget (fold_left (fun m0 t => rdel m0 (ts, t)) l m) k = rget m k \/ (exists t, k = (ts, t) /\ In t l).
+Proof.
+  intros ts l m [h tk]. destruct (rget (fold_left (fun m0 t => rdel m0 (ts, t)) l m) (h, tk)) as [r|] eqn:E.
+  - left. symmetry. eapply fold_rdel_sub; eauto.
+  - destruct (rget m (h, tk)) as [r|] eqn:E2; [|left; reflexivity]. right.
+    destruct (fold_rdel_none ts l m h tk E) as [X Y]; [congruence|]. subst h. exists tk. auto.
+Qed.
+
+Section Intact.
+  Variables (b repl nt : Z).
+  Variable R0 : list (rkey * replica).
+  Variable D0 : tkt -> option (Z * list Z).
+  Hypothesis BR : (b =? -2) = false.
+
+  Definition keepb (x : X5.xstate) : Prop :=
+    (exists tm, zget (X5.x_del x) b = Some (repl, nt, tm)) /\
+    (forall t, fst t = b -> tget (X5.x_deltr x) t = D0 t) /\
+    (forall t dv hs s, fst t = b -> D0 t = Some (dv, hs) -> In s hs -> rget (s_reps (X5.x_cl x)) (s, t) = rget R0 (s, t)).
+  Definition keep (x : X5.xstate) : Prop := keepb x \/ zmem b (X5.x_dead x) = true.
+
+  Lemma keep_nohid : forall x, keep x -> nohid x = false.
+  Proof.
+    intros x [((tm & Z) & _)|D]; unfold nohid.
+    - destruct (X5.x_del x); [discriminate Z|reflexivity].
+    - destruct (X5.x_del x); [|reflexivity]. destruct (X5.x_dead x); [discriminate D|reflexivity].
+  Qed.
+
+  Lemma keep_step : forall x ev, xinv6 x -> ok6_ev x ev = true -> ev <> [43; b] -> keep x -> keep (fst (X5.step x ev)).
+  Proof.
+    intros x ev I OK NE K. pose proof (keep_nohid x K) as NH.
+    destruct ev as [|c a]; [discriminate OK|]. unfold ok6_ev in OK. unfold X5.step.
+    destruct (c <? 40) eqn:C. { rewrite NH in OK. discriminate OK. }
+    destruct (c =? 40) eqn:C40.
+    { destruct a as [|a0 [|ts [|n r]]]; try (cbn [orb] in OK; unfold ok5_ev in OK; rewrite C, C40 in OK; discriminate OK).
+      unfold X5.step_report. destruct (GC.check_for_garbage _ _ _ _) as [old gone].
+      assert (K1 : keep (X5.set_cl x (fst (step (X5.x_cl x) [11; ts])))).
+      { destruct K as [(K1 & K2 & K3)|D]; [left|right; exact D]. split; [exact K1|]. split; [exact K2|exact K3]. }
+      destruct old; [destruct gone|]; cbn [fst]; try exact K1;
+        (destruct K1 as [(K1 & K2 & K3)|D]; [left; split; [exact K1|]; split; [exact K2|exact K3] | right; exact D]). }
+    destruct (c =? 41) eqn:C41.
+    { cbn [orb] in OK. unfold ok5_ev in OK. rewrite C, C40, C41 in OK. destruct a as [|n [|f [|z r]]]; try discriminate OK.
+      unfold X5.step_deliver. destruct (nth_error (X5.x_soup x) (Z.to_nat n)) as [i|] eqn:N; [|exact K]. cbn [fst].
+      destruct K as [(K1 & K2 & K3)|D]; [left|right; exact D]. split; [exact K1|]. split; [exact K2|].
+      intros t dv hs s Ft Dt Ins. rewrite <- (K3 t dv hs s Ft Dt Ins).
+      change (rget (fold_left (fun m t0 => rdel m (X5.i_ts i, t0)) (removed x i f) (s_reps (X5.x_cl x))) (s, t) = rget (s_reps (X5.x_cl x)) (s, t)).
+      destruct (fold_rdel_keep (X5.i_ts i) (removed x i f) (s_reps (X5.x_cl x)) (s, t)) as [E|(t' & E & In')]; [exact E|]. exfalso.
+      inversion E; subst t' s. pose proof (nth_error_In _ _ N) as Hi.
+      assert (RS : GC.is_rs t = false) by (unfold GC.is_rs; rewrite Ft; exact BR).
+      pose proof (safe6 x i f t I Hi In' RS) as S. destruct I as (vst & GS & LS & A & SA & SB).
+      destruct K1 as [tm Zd]. assert (KB : zmem b (keys x) = true) by (unfold keys; rewrite zmem_keys, Zd; reflexivity).
+      rewrite (vis_blob_v _ _ _ A), Ft, (ag_dj _ _ A b KB), (ag_b _ _ A _ _ _ _ Zd) in S. destruct S as [_ S].
+      apply (S dv hs); [|exact Ins]. rewrite (vis_tract_v _ _ _ A), Ft, (ag_dj _ _ A b KB). rewrite <- (ag_t _ _ A t) by (rewrite Ft; exact KB).
+      rewrite (K2 t Ft). exact Dt. }
+    cbn [orb] in OK.
+    destruct (c =? 42) eqn:C42.
+    { destruct a as [|d [|z r]]; try discriminate OK. unfold X5.step_delete.
+      destruct (zget (s_blobs (X5.x_cl x)) d) as [[rp n']|] eqn:Zc; cbn [fst];
+        [|destruct K as [(K1 & K2 & K3)|D]; [left; split; [exact K1|]; split; [exact K2|exact K3] | right; exact D]].
+      destruct K as [(K1 & K2 & K3)|D]; [left|right; exact D]. destruct K1 as [tm Zd].
+      assert (DN : (b =? d) = false).
+      { destruct (b =? d) eqn:E; [|reflexivity]. apply Z.eqb_eq in E. subst d. destruct I as (vst & _ & _ & A & _).
+        rewrite (ag_cl _ _ A), zget_projd in Zc. unfold hidden, keys in Zc. rewrite zmem_keys, Zd in Zc. discriminate Zc. }
+      split; [exists tm; cbn [X5.x_del X5.upd zget]; rewrite DN; exact Zd|]. split.
+      - intros t Ft. cbn [X5.x_deltr X5.upd]. unfold X5.blob_tracts. rewrite tget_app, (tget_filter _ (fun k => k =? d)), Ft, DN. exact (K2 t Ft).
+      - intros t dv hs s Ft Dt Ins. exact (K3 t dv hs s Ft Dt Ins). }
+    destruct (c =? 43) eqn:C43.
+    { destruct a as [|d [|z r]]; try discriminate OK. apply Z.eqb_eq in C43. subst c.
+      assert (DN : (b =? d) = false) by (destruct (b =? d) eqn:E; [apply Z.eqb_eq in E; subst d; contradiction|reflexivity]).
+      unfold X5.step_undelete. rewrite gaget_eq.
+      destruct (zget (X5.x_del x) d) as [[[rp n'] tm']|]; cbn [fst].
+      2:{ destruct (zget (s_blobs (X5.x_cl x)) d); (destruct K as [(K1 & K2 & K3)|D]; [left; split; [exact K1|]; split; [exact K2|exact K3] | right; exact D]). }
+      destruct K as [(K1 & K2 & K3)|D]; [left|right; exact D]. destruct K1 as [tm Zd].
+      split; [exists tm; cbn [X5.x_del X5.upd]; rewrite gadel_eq, zget_zdel, DN; exact Zd|]. split.
+      - intros t Ft. cbn [X5.x_deltr X5.upd]. unfold X5.drop_blob_tracts. rewrite (tget_filter _ (fun k => negb (k =? d))), Ft, DN. exact (K2 t Ft).
+      - intros t dv hs s Ft Dt Ins. exact (K3 t dv hs s Ft Dt Ins). }
+    destruct (c =? 44) eqn:C44.
+    { unfold X5.step_scan. cbn [fst]. destruct K as [(K1 & K2 & K3)|D]; [left; split; [exact K1|]; split; [exact K2|exact K3] | right; exact D]. }
+    destruct (c =? 45) eqn:C45; [|discriminate OK].
+    destruct a as [|d [|z r]]; try discriminate OK. unfold X5.step_finish. cbn [fst].
+    destruct (X5.x_scan x) as [[cutoff sel]|]; [|exact K].
+    set (dead := filter (fun b0 => match GC.aget (X5.x_del x) b0 with Some (_, _, tm) => tm <? cutoff | None => false end) sel).
+    destruct K as [(K1 & K2 & K3)|D]; [|right; cbn [X5.x_dead X5.add_dead X5.upd]; rewrite zmem_app, D; apply orb_true_r].
+    destruct (zmem b dead) eqn:DB; [right; cbn [X5.x_dead X5.add_dead X5.upd]; rewrite zmem_app, DB; reflexivity|].
+    left. destruct K1 as [tm Zd]. split; [|split].
+    - exists tm. cbn [X5.x_del X5.add_dead X5.upd]. rewrite (zget_filter _ (fun j => negb (GC.zmem j dead))).
+      change (GC.zmem b dead) with (zmem b dead). rewrite DB. exact Zd.
+    - intros t Ft. cbn [X5.x_deltr X5.add_dead X5.upd]. rewrite (tget_filter _ (fun j => negb (GC.zmem j dead))).
+      change (GC.zmem (fst t) dead) with (zmem (fst t) dead). rewrite Ft, DB. exact (K2 t Ft).
+    - intros t dv hs s Ft Dt Ins. exact (K3 t dv hs s Ft Dt Ins).
+  Qed.
+
+  Lemma keep_run : forall evs x, ok6_run x evs = true -> (forall ev, In ev evs -> ev <> [43; b]) -> xinv6 x -> keep x -> keep (xrun x evs).
+  Proof.
+    induction evs as [|ev r IH]; intros x OK NE I K; cbn; auto. cbn in OK. apply andb_true_iff in OK as [O1 O2].
+    apply IH; auto; [intros e He; apply NE; right; exact He | now apply xinv6_step | apply keep_step; auto; apply NE; left; reflexivity].
+  Qed.
+End Intact.
+
+Lemma xrun_app : forall a x b0, xrun x (a ++ b0) = xrun (xrun x a) b0.
+Proof. induction a as [|e a IH]; intros x b0; cbn; auto. Qed.
+Lemma ok6_run_app : forall a x b0, ok6_run x (a ++ b0) = ok6_run x a && ok6_run (xrun x a) b0.
+Proof. induction a as [|e a IH]; intros x b0; cbn; auto. rewrite IH, andb_assoc. reflexivity. Qed.
+Lemma step_42 : forall x b, X5.step x [42; b] = X5.step_delete x b.
+Proof. intros. reflexivity. Qed.
+Lemma step_43 : forall x b, X5.step x [43; b] = X5.step_undelete x b.
+Proof. intros. reflexivity. Qed.
+
+Theorem undelete_intact_cluster : forall evs1 evs2 b repl nt,
+  ok6_run X5.init_x (evs1 ++ [42; b] :: evs2 ++ [[43; b]]) = true ->
+  (forall ev, In ev evs2 -> ev <> [43; b]) -> (b =? -2) = false ->
+  let x0 := xrun X5.init_x evs1 in
+  zget (s_blobs (X5.x_cl x0)) b = Some (repl, nt) ->
+  let x2 := xrun (fst (X5.step x0 [42; b])) evs2 in
+  snd (X5.step x2 [43; b]) = [c05_NoError] ->
+  let x3 := fst (X5.step x2 [43; b]) in
+  zget (s_blobs (X5.x_cl x3)) b = Some (repl, nt) /\
+  (forall t, fst t = b -> tget (s_dtr (X5.x_cl x3)) t = tget (s_dtr (X5.x_cl x0)) t) /\
+  (forall t dv hs s, fst t = b -> tget (s_dtr (X5.x_cl x0)) t = Some (dv, hs) -> In s hs ->
+     rget (s_reps (X5.x_cl x3)) (s, t) = rget (s_reps (X5.x_cl x0)) (s, t)).
+Proof.
+  intros evs1 evs2 b repl nt OK NE BR x0 ZB x2 ACK x3.
+  rewrite ok6_run_app in OK. apply andb_true_iff in OK as [OK1 OK]. fold x0 in OK. cbn [ok6_run] in OK.
+  apply andb_true_iff in OK as [OKd OK]. rewrite ok6_run_app in OK. apply andb_true_iff in OK as [OK2 OKu]. fold x2 in OKu.
+  assert (I0 : xinv6 x0) by (apply xinv6_run; [exact OK1 | exact xinv6_init]).
+  set (x1 := fst (X5.step x0 [42; b])) in *.
+  assert (I1 : xinv6 x1) by (apply xinv6_step; auto).
+  assert (I2 : xinv6 x2) by (apply xinv6_run; auto).
+  set (R0 := s_reps (X5.x_cl x0)). set (D0 := fun t => tget (s_dtr (X5.x_cl x0)) t).
+  assert (K1 : keep b repl nt R0 D0 x1).
+  { left. unfold x1. rewrite step_42. unfold X5.step_delete. rewrite ZB. cbn [fst].
+    destruct I0 as (vst & _ & _ & A & _). pose proof ZB as Z'. rewrite (ag_cl _ _ A), zget_projd in Z'.
+    destruct (hidden x0 b) eqn:HB; [discriminate|]. destruct (hidden_false _ _ HB) as [KB _].
+    split; [exists (X5.x_clock x0); cbn [X5.x_del X5.upd zget]; rewrite Z.eqb_refl; reflexivity|]. split.
+    - intros t Ft. cbn [X5.x_deltr X5.upd]. unfold X5.blob_tracts, D0. rewrite tget_app, (tget_filter _ (fun k => k =? b)), Ft, Z.eqb_refl.
+      destruct (tget (s_dtr (X5.x_cl x0)) t); [reflexivity|]. apply (ag_n _ _ A t). rewrite Ft. exact KB.
+    - intros. reflexivity. }
+  pose proof (keep_run b repl nt R0 D0 BR evs2 x1 OK2 NE I1 K1) as K2. fold x2 in K2.
+  unfold x3. rewrite step_43 in *. unfold X5.step_undelete in *.
+  destruct K2 as [((tm & Zd) & T2 & R2)|Dd].
+  - assert (Zd' : GC.aget (X5.x_del x2) b = Some (repl, nt, tm)) by (rewrite gaget_eq; exact Zd). rewrite Zd'. cbn [fst X5.x_cl X5.upd s_blobs s_dtr s_reps set_dtr set_blobs]. split; [apply zget_zset_same|]. split.
+    + intros t Ft. unfold X5.blob_tracts. rewrite tget_app, (tget_filter _ (fun k => k =? b)), Ft, Z.eqb_refl. rewrite (T2 t Ft). unfold D0.
+      destruct (tget (s_dtr (X5.x_cl x0)) t); [reflexivity|].
+      destruct I2 as (vst & _ & _ & A & _). rewrite (ag_cl _ _ A), tget_projd, Ft. unfold hidden, keys. rewrite zmem_keys, Zd. reflexivity.
+    + intros t dv hs s Ft Dt Ins. exact (R2 t dv hs s Ft Dt Ins).
+  - exfalso. destruct I2 as (vst & _ & _ & A & _).
+    assert (KB : zmem b (keys x2) = false).
+    { destruct (zmem b (keys x2)) eqn:E; [|reflexivity]. rewrite (ag_dj _ _ A b E) in Dd. discriminate. }
+    unfold keys in KB. rewrite zmem_keys in KB.
+    assert (Zn : GC.aget (X5.x_del x2) b = None) by (rewrite gaget_eq; destruct (zget (X5.x_del x2) b); [discriminate|reflexivity]). rewrite Zn in ACK.
+    rewrite (ag_cl _ _ A), zget_projd in ACK. unfold hidden in ACK. rewrite Dd, orb_true_r in ACK. cbn [snd] in ACK. cbv in ACK. discriminate ACK.
+Qed.
